@@ -471,7 +471,13 @@ func (p *c19) crossProcess(c *verifsim.Chooser, st *Stats, render bool) *Outcome
 	st.fault("fresh-process-pairs")
 	var bc0, run0 string
 	for i := 0; i < 3; i++ {
+		stillAlive()
 		bc, rn := runDrv(bcArgs...), runDrv(runArgs...)
+		if strings.Contains(bc+rn, "<driver did not finish>") {
+			// (a saturated machine, or a script that loops: nothing to compare)
+			st.probe("cross-process-run-did-not-finish-in-20s")
+			return o
+		}
 		if i == 0 {
 			bc0, run0 = bc, rn
 			if render {
